@@ -187,12 +187,30 @@ def parse_tlc_output(res, rc):
         res.error = f"TLC exit status {rc}"
 
 
-def spec_hash():
+def module_closure(module, seen=None):
+    """The modules of spec/ that `module` depends on (EXTENDS / INSTANCE, transitively), itself included."""
+    seen = set() if seen is None else seen
+    path = os.path.join(SPEC, module + ".tla")
+    if module in seen or not os.path.exists(path):
+        return seen
+    seen.add(module)
+    txt = open(path).read()
+    deps = []
+    for m in re.finditer(r"^\s*EXTENDS\s+([^\n]+)", txt, re.M):
+        deps += [x.strip() for x in m.group(1).split(",")]
+    deps += re.findall(r"INSTANCE\s+(\w+)", txt)
+    for d in deps:
+        module_closure(d, seen)
+    return seen
+
+
+def spec_hash(module=None):
+    """Hash of the specification text a generator's output depends on: the module and everything it extends."""
     h = hashlib.sha1()
-    for f in sorted(os.listdir(SPEC)):
-        if f.endswith(".tla"):
-            h.update(f.encode())
-            h.update(open(os.path.join(SPEC, f), "rb").read())
+    files = sorted(m + ".tla" for m in module_closure(module)) if module else sorted(f for f in os.listdir(SPEC) if f.endswith(".tla"))
+    for f in files:
+        h.update(f.encode())
+        h.update(open(os.path.join(SPEC, f), "rb").read())
     return h.hexdigest()
 
 
@@ -213,7 +231,7 @@ def run_tlc_cached(module, constants, cfg_body, workers=4, timeout=3000, heap="4
     outfile must NOT be removed by the caller; res.cached tells whether TLC ran in this call."""
     cdir = os.path.join(OUT, "tlccache")
     os.makedirs(cdir, exist_ok=True)
-    key = hashlib.sha1(json.dumps([module, _canon(constants), cfg_body, spec_hash()], sort_keys=True).encode()).hexdigest()[:24]
+    key = hashlib.sha1(json.dumps([module, _canon(constants), cfg_body, spec_hash(module)], sort_keys=True).encode()).hexdigest()[:24]
     path, meta = os.path.join(cdir, key + ".out"), os.path.join(cdir, key + ".json")
     if os.path.exists(path) and os.path.exists(meta):
         try:
